@@ -79,6 +79,14 @@ type FuncContract struct {
 	CallInv  map[string][]*Clause
 	CallAssert map[string][]*Clause // "call Name#k assert e": checked in the state just before that call
 	CallWitness map[string][]LetDef // "call Name#k witness n = e": value of e just before that call, reported with counterexamples
+	GhostSets []GhostSet
+}
+
+// GhostSet: "ghost set x.$f = e" (see LoadContractFile)
+type GhostSet struct {
+	LHS  ESel
+	RHS  Expr
+	Text string
 }
 
 type LetDef struct {
@@ -386,13 +394,13 @@ func (cs *Contracts) LoadContractFile(path, pkgPath string) error {
 			}
 			fs := strings.SplitN(rest, " ", 3)
 			if len(fs) < 3 {
-				return fail(l.line, "loop: want 'loop N invariant|decreases expr'")
+				return fail(l.line, "loop: want 'loop N invariant|decreases|step expr'")
 			}
 			n, err := strconv.Atoi(fs[0])
 			if err != nil {
 				return fail(l.line, "loop ordinal: %v", err)
 			}
-			if fs[1] != "invariant" && fs[1] != "decreases" {
+			if fs[1] != "invariant" && fs[1] != "decreases" && fs[1] != "step" {
 				return fail(l.line, "loop: unknown clause %q", fs[1])
 			}
 			c, err := mk(fs[1], fs[2])
@@ -454,6 +462,32 @@ func (cs *Contracts) LoadContractFile(path, pkgPath string) error {
 		case "ghost":
 			// ghost field (T).name type
 			fs := strings.Fields(rest)
+			if len(fs) >= 4 && fs[0] == "set" {
+				// ghost set x.$f = e : a ghost assignment executed at the entry of the function's body when the body is
+				// verified (the function *defines* that ghost state); RHS is evaluated in the pre-state
+				if cur == nil {
+					return fail(l.line, "ghost set outside func")
+				}
+				body := strings.TrimSpace(rest[len("set"):])
+				i := strings.Index(body, "=")
+				if i < 0 {
+					return fail(l.line, "ghost set: missing =")
+				}
+				lhs, err := ParseExpr(body[:i])
+				if err != nil {
+					return fail(l.line, "%v", err)
+				}
+				rhs, err := ParseExpr(body[i+1:])
+				if err != nil {
+					return fail(l.line, "%v", err)
+				}
+				sel, ok := lhs.(ESel)
+				if !ok || !strings.HasPrefix(sel.Name, "$") {
+					return fail(l.line, "ghost set: left side must be x.$f")
+				}
+				cur.GhostSets = append(cur.GhostSets, GhostSet{sel, rhs, strings.TrimSpace(body)})
+				continue
+			}
 			if len(fs) == 3 && fs[0] == "var" {
 				// ghost var name type : a global ghost scalar, written $name
 				cs.GhostVars[fs[1]] = GhostVar{fs[1], fs[2]}
